@@ -57,7 +57,11 @@ type c02Attr struct {
 }
 
 type c02In struct {
-	Mode      string    `json:"mode"` // "stream" | "malformed"
+	Mode      string    `json:"mode"` // "stream" | "malformed" | "deepfwd"
+	// deepfwd: one <Kind/> stanza holding Depth nested <delegation><forwarded><Kind> wrappers
+	// (the 10 MB document is generated from these two fields, never stored)
+	Depth int    `json:"depth,omitempty"`
+	Kind  string `json:"kind,omitempty"`
 	Component bool      `json:"component,omitempty"`
 	Items     []c02Node `json:"items,omitempty"`
 	Closed    bool      `json:"closed,omitempty"` // </stream:stream> at the end
@@ -79,6 +83,10 @@ func init() { register(c02{}) }
 func (c02) ID() string    { return "C02" }
 func (c02) RunFn() string { return "run_C02" }
 func (c02) Workers() int  { return 8 }
+
+// Journal: the case in flight is written down first, so that an input that brings the process
+// down (fatal error: stack overflow cannot be recovered) is found again and reported.
+func (c02) Journal() bool { return true }
 func (c02) Rule() string {
 	return "streams of 0-8 top-level elements (client / component / stream / SASL / SM namespaces, ~8% with an undispatchable element) after a real stream header; stanza start tags with unqualified type/id/from/to, xml:lang and qualified look-alikes (p:id, xmlns:id, q:lang, unqualified lang); children drawn from registered extensions with valid content incl. every one with a hand-written UnmarshalXML (pubsub event, pubsub owner, command, delegation/forwarded, MUC history) holding same-named descendants below unknown children, unknown elements (incl. names body/error/show/message/presence/iq/forwarded/failed below unknown parents), same-named nested stanzas (carbons/MAM shape), known child names, error children, <failed/> with listed, unlisted and unknown children and any h, chains of depth up to 200 (thorough 20000), text/CDATA/comments/PIs inside and between elements; each stream read whole, 1 byte per read, random chunks, and (one stream per run) split at every offset; malformed: every truncation of one stream, random byte corruptions, random bytes. distinct = distinct sequence of (top-level kind, child-shape summary); non-trivial = at least 2 top-level elements one of which has element children"
 }
@@ -299,39 +307,68 @@ func c02PacketSx(p stanza.Packet) Sx {
 // c02Parse: InitStream + NextPacket until error, on one decoder over r.
 // status: 0 ended with an error, 1 timeout, 2 panic, 3 more than limit packets.
 func c02Parse(r io.Reader, total int, limit int, timeout time.Duration) (seq []Sx, status int, detail string) {
+	seq, _, status, detail = c02ParseV(r, total, limit, timeout)
+	return
+}
+
+// c02SMVals: the attribute-borne fields of a stream-management packet, for the direct oracle
+func c02SMVals(p stanza.Packet) string {
+	up := func(u *uint) string {
+		if u == nil {
+			return "nil"
+		}
+		return fmt.Sprint(*u)
+	}
+	switch v := p.(type) {
+	case stanza.SMEnabled:
+		return fmt.Sprintf("id=%q location=%q resume=%q max=%d", v.Id, v.Location, v.Resume, v.Max)
+	case stanza.SMResumed:
+		return fmt.Sprintf("previd=%q h=%s", v.PrevId, up(v.H))
+	case stanza.SMResume:
+		return fmt.Sprintf("previd=%q h=%s", v.PrevId, up(v.H))
+	case stanza.SMAnswer:
+		return fmt.Sprintf("h=%d", v.H)
+	}
+	return ""
+}
+
+func c02ParseV(r io.Reader, total int, limit int, timeout time.Duration) (seq []Sx, vals []string, status int, detail string) {
 	type res struct {
 		seq    []Sx
+		vals   []string
 		status int
 		detail string
 	}
 	ch := make(chan res, 1)
 	go func() {
 		var out []Sx
+		var vals []string
 		defer func() {
 			if p := recover(); p != nil {
-				ch <- res{out, 2, fmt.Sprint(p)}
+				ch <- res{out, nil, 2, fmt.Sprint(p)}
 			}
 		}()
 		d := xml.NewDecoder(r)
 		if _, err := stanza.InitStream(d); err != nil {
-			ch <- res{append(out, L(Z(0), Z(5))), 0, ""}
+			ch <- res{append(out, L(Z(0), Z(5))), nil, 0, ""}
 			return
 		}
 		for i := 0; i < limit; i++ {
 			p, err := stanza.NextPacket(d)
 			if err != nil {
-				ch <- res{append(out, L(Z(0), Z(c02ErrClass(d, total)))), 0, ""}
+				ch <- res{append(out, L(Z(0), Z(c02ErrClass(d, total)))), vals, 0, ""}
 				return
 			}
 			out = append(out, c02PacketSx(p))
+			vals = append(vals, c02SMVals(p))
 		}
-		ch <- res{out, 3, ""}
+		ch <- res{out, vals, 3, ""}
 	}()
 	select {
 	case x := <-ch:
-		return x.seq, x.status, x.detail
+		return x.seq, x.vals, x.status, x.detail
 	case <-time.After(timeout):
-		return nil, 1, "timeout"
+		return nil, nil, 1, "timeout"
 	}
 }
 
@@ -379,8 +416,85 @@ func c02SeqEq(a, b []Sx) bool {
 	return true
 }
 
+// c02DeepDoc: header + one stanza with depth nested delegation/forwarded/stanza wrappers + a
+// sentinel presence + end tag
+func c02DeepDoc(kind string, depth int) []byte {
+	var b strings.Builder
+	open := "<delegation xmlns='urn:xmpp:delegation:1'><forwarded xmlns='urn:xmpp:forward:0'><" + kind + " xmlns='jabber:client'>"
+	cl := "</" + kind + "></forwarded></delegation>"
+	b.Grow(len(open)*depth + len(cl)*depth + 400)
+	b.WriteString(c02Header(false))
+	b.WriteString("<" + kind + " id='top' type='set'>")
+	for i := 0; i < depth; i++ {
+		b.WriteString(open)
+	}
+	for i := 0; i < depth; i++ {
+		b.WriteString(cl)
+	}
+	b.WriteString("</" + kind + "><presence id='after'/></stream:stream>\n")
+	return []byte(b.String())
+}
+
+// c02SMWant: what the attribute-borne fields of a stream-management element must be, from its
+// own UNQUALIFIED attributes ("" = not checked: not such an element, or an attribute does not convert)
+func c02SMWant(n *c02Node) string {
+	if n.NS != c02NSSM {
+		return ""
+	}
+	get := func(l string) (string, bool) {
+		v, ok := "", false
+		for _, a := range n.A {
+			if a.NS == "" && a.L == l {
+				v, ok = a.V, true
+			}
+		}
+		return v, ok
+	}
+	num := func(l string, ptr bool) (string, bool) {
+		v, ok := get(l)
+		if !ok {
+			if ptr {
+				return "nil", true
+			}
+			return "0", true
+		}
+		if v == "" {
+			return "0", true
+		}
+		u, err := strconv.ParseUint(strings.TrimSpace(v), 10, 64)
+		return fmt.Sprint(u), err == nil
+	}
+	str := func(l string) string { v, _ := get(l); return v }
+	switch n.L {
+	case "enabled":
+		if m, ok := num("max", false); ok {
+			return fmt.Sprintf("id=%q location=%q resume=%q max=%s", str("id"), str("location"), str("resume"), m)
+		}
+	case "resumed", "resume":
+		if h, ok := num("h", true); ok {
+			return fmt.Sprintf("previd=%q h=%s", str("previd"), h)
+		}
+	case "a":
+		if h, ok := num("h", false); ok {
+			return "h=" + h
+		}
+	}
+	return ""
+}
+
 func (c02) Run(inp interface{}) Sx {
 	in := inp.(c02In)
+	if in.Mode == "deepfwd" {
+		data := c02DeepDoc(in.Kind, in.Depth)
+		seq, status, _ := c02Parse(&c02ChunkReader{data: data, next: func(int) int { return 1 << 16 }}, len(data), 10, 120*time.Second)
+		code := map[string]int64{"message": 1, "iq": 3}[in.Kind]
+		want := []Sx{L(Z(code), SBytes("set"), SBytes("top"), SBytes(""), SBytes(""), SBytes("")),
+			L(Z(2), SBytes(""), SBytes("after"), SBytes(""), SBytes(""), SBytes("")), L(Z(15)), L(Z(0), Z(1))}
+		if status != 0 || !c02SeqEq(seq, want) {
+			return L(Z(-5), Zi(status), LS(seq))
+		}
+		return L(Z(77))
+	}
 	if in.Mode == "malformed" {
 		data := c02MalformedBytes(&in)
 		seq, status, detail := c02Parse(&c02ChunkReader{data: data, next: func(int) int { return 4096 }}, len(data), 1000, 20*time.Second)
@@ -401,9 +515,29 @@ func (c02) Run(inp interface{}) Sx {
 	body, _ := c02Render(&in)
 	data := []byte(c02Header(in.Component) + body)
 	limit := len(in.Items) + 5
-	whole, status, detail := c02Parse(&c02ChunkReader{data: data, next: func(rem int) int { return rem }}, len(data), limit, 60*time.Second)
+	whole, vals, status, detail := c02ParseV(&c02ChunkReader{data: data, next: func(rem int) int { return rem }}, len(data), limit, 60*time.Second)
 	if status != 0 {
 		return L(Z(-3), Zi(status), SBytes(detail))
+	}
+	// direct oracle on the values of stream-management attributes (not part of the model's
+	// observation): the i-th packet belongs to the i-th top-level element as long as the
+	// kinds agree; a wrong value is marked in the observation
+	{
+		i := 0
+		for k := range in.Items {
+			n := &in.Items[k]
+			if n.K != 0 {
+				continue
+			}
+			code, _ := c02TopKind(n.NS, n.L)
+			if i >= len(whole) || i >= len(vals) || code == 0 || whole[i].L[0].Z != code {
+				break
+			}
+			if want := c02SMWant(n); want != "" && vals[i] != want {
+				return L(Z(-6), Zi(k), SBytes(vals[i]), SBytes(want))
+			}
+			i++
+		}
 	}
 	check := func(kind int, rd io.Reader) *Sx {
 		s, st, _ := c02Parse(rd, len(data), limit, 60*time.Second)
@@ -440,7 +574,7 @@ func (c02) Run(inp interface{}) Sx {
 
 func (c02) Input(inp interface{}) Sx {
 	in := inp.(c02In)
-	if in.Mode == "malformed" {
+	if in.Mode == "malformed" || in.Mode == "deepfwd" {
 		return L(Z(77))
 	}
 	_, toks := c02Render(&in)
@@ -600,9 +734,9 @@ func c02Features(n *c02Node) []string {
 			if x.K == 0 && x.NS == c02NSMuc && x.L == "x" {
 				for j := range x.C {
 					h := &x.C[j]
-					if h.K == 0 && h.L == "history" {
+					if h.K == 0 && h.L == "history" && h.NS == c02NSMuc {
 						for _, a := range h.A {
-							if _, err := strconv.Atoi(a.V); err != nil && (a.L == "seconds" || a.L == "maxchars" || a.L == "maxstanzas") {
+							if _, err := strconv.Atoi(a.V); err != nil && a.NS == "" && (a.L == "seconds" || a.L == "maxchars" || a.L == "maxstanzas") {
 								f["illtyped-extension"] = true
 							}
 						}
@@ -624,6 +758,12 @@ func c02Features(n *c02Node) []string {
 
 func (c02) Oracle(inp interface{}, obs Sx) (string, string) {
 	in := inp.(c02In)
+	if in.Mode == "deepfwd" {
+		if len(obs.L) == 1 && obs.L[0].Z == 77 {
+			return "", ""
+		}
+		return fmt.Sprintf("<%s/> holding %d nested <delegation><forwarded><%s> wrappers: not (the stanza, the presence after it, close, end of input): %s", in.Kind, in.Depth, in.Kind, obs.String()), "deep-forwarded"
+	}
 	if in.Mode == "malformed" {
 		if len(obs.L) == 1 && obs.L[0].Z == 77 {
 			return "", ""
@@ -644,6 +784,9 @@ func (c02) Oracle(inp interface{}, obs Sx) (string, string) {
 			return fmt.Sprintf("packet sequence depends on the read segmentation (kind %d)", obs.L[1].Z), "segmentation"
 		case -3:
 			return "reading did not end with an error: status " + fmt.Sprint(obs.L[1].Z), "no-error-at-end"
+		case -6:
+			k := int(obs.L[1].Z)
+			return fmt.Sprintf("element %d (<%s/>): stream-management attributes decoded as %s, the element's own unqualified attributes say %s", k, in.Items[k].L, string(bytesOf(obs.L[2])), string(bytesOf(obs.L[3]))), "wrong-sm-attrs"
 		}
 	}
 	// expected sequence, from the generated elements alone
@@ -728,6 +871,7 @@ func c02CountElems(ns []c02Node) int {
 // ---------------------------------------------------------------- generator
 
 type c02Gen struct {
+	stanzaNS string // namespace of the stanza being generated
 	r        *rand.Rand
 	maxDeep  int
 	budget   int // element budget per top-level element
@@ -760,7 +904,7 @@ func (n c02Node) with(l, v string) c02Node {
 }
 
 var c02UnknownNS = []string{"u", "urn:x:y", "", "jabber:client", "jabber:server", "urn:xmpp:carbons:2", "urn:xmpp:forward:0", "urn:xmpp:mam:2"}
-var c02UnknownL = []string{"x", "y", "body", "error", "show", "status", "subject", "message", "presence", "iq", "forwarded", "failed", "stream", "features", "history", "sent", "result", "starttls", "required", "text", "a", "r"}
+var c02UnknownL = []string{"priority", "thread", "item", "set", "x", "y", "body", "error", "show", "status", "subject", "message", "presence", "iq", "forwarded", "failed", "stream", "features", "history", "sent", "result", "starttls", "required", "text", "a", "r"}
 
 // unknown: an element no registry entry or known child name matches at the place it is put
 // (namespace/local chosen so that it is not registered for kind); arbitrary content.
@@ -815,12 +959,12 @@ func c02Bucket(d int) string {
 func (g *c02Gen) isKnownChild(kind, ns, l string) bool {
 	switch kind {
 	case "message":
-		if l == "body" || l == "thread" || l == "subject" || l == "error" {
+		if (l == "body" || l == "thread" || l == "subject" || l == "error") && ns == g.stanzaNS {
 			return true
 		}
 		return stanza.TypeRegistry.GetMsgExtension(xml.Name{Space: ns, Local: l}) != nil
 	case "presence":
-		if l == "show" || l == "status" || l == "priority" || l == "error" {
+		if (l == "show" || l == "status" || l == "priority" || l == "error") && ns == g.stanzaNS {
 			return true
 		}
 		return stanza.TypeRegistry.GetPresExtension(xml.Name{Space: ns, Local: l}) != nil
@@ -933,7 +1077,18 @@ func (g *c02Gen) extension(kind string) c02Node {
 			if g.r.Intn(2) == 0 {
 				h = h.with("seconds", []string{"10", "-1", "+7", "0"}[g.r.Intn(4)])
 			}
+			if g.r.Intn(3) == 0 {
+				// XEP-0082 DateTime: Z, numeric offset, fraction
+				h = h.with("since", []string{"1970-01-01T00:00:00Z", "1970-01-01T00:00:00+00:00", "2020-02-03T04:05:06.789-05:30"}[g.r.Intn(3)])
+			}
+			if g.r.Intn(3) == 0 {
+				h.A = append(h.A, c02Attr{NS: "urn:example:ext", L: []string{"seconds", "maxstanzas", "since"}[g.r.Intn(3)], V: "all"})
+			}
 			x.C = append(x.C, h)
+			if g.r.Intn(3) == 0 {
+				// an unrelated element called history
+				x.C = append(x.C, c02El("urn:example:ext", "history").with("since", "yesterday").with("seconds", "many"))
+			}
 		}
 		return extra(x)
 	default: // iq
@@ -1068,6 +1223,15 @@ func (g *c02Gen) delegation() c02Node {
 		}
 	}
 	d.C = append(d.C, fwd)
+	// forwarded stanzas that again carry a delegation with a forwarded stanza ...: beyond the
+	// decoder's bound (32) the content is skipped, not decoded
+	if g.r.Intn(4) == 0 {
+		for k := 1 + g.r.Intn(45); k > 0; k-- {
+			w := c02El(c02NSClient, []string{"iq", "message"}[g.r.Intn(2)], d).with("id", "w")
+			d = c02El("urn:xmpp:delegation:1", "delegation", c02El("urn:xmpp:forward:0", "forwarded", w))
+		}
+		hist("child:delegation-nested")
+	}
 	return d
 }
 
@@ -1148,6 +1312,7 @@ func (g *c02Gen) stanzaAttrs(n c02Node, kind string) c02Node {
 }
 
 func (g *c02Gen) stanza(ns, kind string) c02Node {
+	g.stanzaNS = ns
 	n := g.stanzaAttrs(c02El(ns, kind), kind)
 	g.budget = 12
 	for k := g.r.Intn(6); k > 0; k-- {
@@ -1290,15 +1455,15 @@ func (g *c02Gen) top(component bool) c02Node {
 		if g.r.Intn(2) == 0 {
 			n = n.with("resume", "true").with("max", []string{"300", "", " 5 ", "0"}[g.r.Intn(4)])
 		}
-		return some(n)
+		return some(g.smLookalikes(n))
 	case x == 16:
 		n := c02El(c02NSSM, []string{"resumed", "resume"}[g.r.Intn(2)]).with("previd", "p")
 		if g.r.Intn(2) == 0 {
 			n = n.with("h", []string{"0", "17", "", "18446744073709551615"}[g.r.Intn(4)])
 		}
-		return some(n)
+		return some(g.smLookalikes(n))
 	case x == 17:
-		return some(c02El(c02NSSM, "a").with("h", []string{"0", "3", "4294967296", " 8"}[g.r.Intn(4)]))
+		return some(g.smLookalikes(c02El(c02NSSM, "a").with("h", []string{"0", "3", "4294967296", " 8"}[g.r.Intn(4)])))
 	case x == 18:
 		f := c02El(c02NSSM, "failed")
 		if g.r.Intn(2) == 0 {
@@ -1328,6 +1493,25 @@ func (g *c02Gen) top(component bool) c02Node {
 	default:
 		return some(c02El(c02NSSM, "r"))
 	}
+}
+
+// smLookalikes: namespace-qualified attributes named like the XEP-0198 ones (must not be read)
+func (g *c02Gen) smLookalikes(n c02Node) c02Node {
+	if g.r.Intn(3) != 0 {
+		return n
+	}
+	for k := 1 + g.r.Intn(2); k > 0; k-- {
+		l := []string{"h", "max", "id", "previd", "resume"}[g.r.Intn(5)]
+		dup := false
+		for _, a := range n.A {
+			dup = dup || (a.NS != "" && a.L == l)
+		}
+		if !dup {
+			n.A = append(n.A, c02Attr{NS: "urn:example:ext", L: l, V: []string{"seven", "4000000", "other", "n/a"}[g.r.Intn(4)]})
+		}
+	}
+	hist("attrs:sm-qualified-lookalikes")
+	return n
 }
 
 func (g *c02Gen) undispatchable(component bool) c02Node {
@@ -1427,6 +1611,38 @@ func (g *c02Gen) probe(kind int) c02In {
 			top.C = []c02Node{c02El("u", "x", c02El(top.NS, top.L))}
 		}
 		in.Items = []c02Node{top, after}
+	case 15: // f3: a foreign element called priority / body next to the real one
+		if g.r.Intn(2) == 0 {
+			in.Items = []c02Node{c02El(c02NSClient, "presence", c02El(c02NSClient, "priority", c02Txt("5")), c02El("urn:example:ticket", "priority", c02Txt("high"))).with("id", "p1"), after}
+		} else {
+			in.Items = []c02Node{c02El(c02NSClient, "message", c02El(c02NSClient, "body", c02Txt("real")), c02El("urn:example:ext", "body", c02El("urn:example:ext", "p")), c02El("urn:example:ext", "error", c02Txt("x"))).with("id", "m1"), after}
+		}
+	case 16: // f5: qualified look-alikes on stream-management elements
+		n := []c02Node{c02El(c02NSSM, "a").with("h", "7"), c02El(c02NSSM, "resumed").with("previd", "x").with("h", "3"),
+			c02El(c02NSSM, "enabled").with("id", "sm1").with("resume", "true").with("max", "300")}[g.r.Intn(3)]
+		l := map[string][]string{"a": {"h"}, "resumed": {"h", "previd"}, "enabled": {"max", "id"}}[n.L]
+		n.A = append(n.A, c02Attr{NS: "urn:example:ext", L: l[g.r.Intn(len(l))], V: []string{"seven", "4000000"}[g.r.Intn(2)]})
+		in.Items = []c02Node{n, after}
+	case 17: // f6: MUC history
+		h := []c02Node{c02El(c02NSMuc, "history").with("since", "1970-01-01T00:00:00+00:00"),
+			c02El("urn:example:ext", "history").with("since", "yesterday"),
+			c02El(c02NSMuc, "history").with("maxstanzas", "20")}[g.r.Intn(3)]
+		if h.NS == c02NSMuc && len(h.A) == 1 && h.A[0].L == "maxstanzas" {
+			h.A = append(h.A, c02Attr{NS: "urn:example:ext", L: "seconds", V: "all"})
+		}
+		in.Items = []c02Node{c02El(c02NSClient, "presence", c02El(c02NSMuc, "x", h)).with("id", "j1"), after}
+	case 18: // f4: a foreign element with a known local name inside a registered payload
+		const ext = "urn:example:ext"
+		switch g.r.Intn(4) {
+		case 0:
+			in.Items = []c02Node{c02El(c02NSClient, "iq", c02El("jabber:iq:roster", "query", c02El(ext, "item"), c02El("jabber:iq:roster", "item").with("jid", "a@b"))).with("id", "1").with("type", "result"), after}
+		case 1:
+			in.Items = []c02Node{c02El(c02NSClient, "iq", c02El("http://jabber.org/protocol/disco#info", "query", c02El(ext, "set"))).with("id", "1").with("type", "result"), after}
+		case 2:
+			in.Items = []c02Node{c02El(c02NSClient, "iq", c02El("http://jabber.org/protocol/pubsub", "pubsub", c02El("http://jabber.org/protocol/pubsub", "configure", c02El(ext, "x")))).with("id", "1").with("type", "set"), after}
+		default:
+			in.Items = []c02Node{c02El(c02NSStream, "features", c02El("urn:ietf:params:xml:ns:xmpp-bind", "bind", c02El(ext, "set"))), after}
+		}
 	case 5: // body below an unknown child
 		in.Items = []c02Node{c02El(c02NSClient, "message", c02El(c02NSClient, "body", c02Txt("real")), c02El("u", "x", c02El(c02NSClient, "body", c02Txt("fake")))).with("id", "b"), after}
 	}
@@ -1443,7 +1659,7 @@ func (c02) Gen(r *rand.Rand, tier string) []interface{} {
 	}
 	var out []interface{}
 	out = append(out, c02In{Mode: "stream", Closed: true}, c02In{Mode: "stream"}, c02In{Mode: "stream", Component: true, Closed: true})
-	for k := 0; k < 15; k++ {
+	for k := 0; k < 19; k++ {
 		for rep := 0; rep < 4; rep++ {
 			out = append(out, g.probe(k))
 		}
@@ -1456,6 +1672,11 @@ func (c02) Gen(r *rand.Rand, tier string) []interface{} {
 			c02In{Mode: "stream", Closed: true, ChunkSeed: 3, Items: []c02Node{c02El(c02NSClient, "message", deepU).with("id", "d1"), c02El(c02NSClient, "iq", deepU).with("id", "d2"), c02El(c02NSClient, "presence").with("id", "d3")}},
 			c02In{Mode: "stream", Closed: true, ChunkSeed: 4, Items: []c02Node{c02El(c02NSClient, "message", c02El("u", "w", deepSame)).with("id", "d4"), c02El(c02NSStream, "features", deepU), c02El(c02NSClient, "message", c02El(c02NSClient, "body", deepU)).with("id", "d5"), c02El(c02NSSM, "r")}})
 		hist("deep:" + c02Bucket(d))
+	}
+	// forwarded stanzas nested far beyond any stack: generated from (kind, depth) at run time
+	for _, kd := range []string{"message", "iq"} {
+		out = append(out, c02In{Mode: "deepfwd", Kind: kd, Depth: 1000}, c02In{Mode: "deepfwd", Kind: kd, Depth: 200000})
+		hist("deepfwd:" + kd)
 	}
 	var sample *c02In
 	for i := 0; i < nStreams; i++ {
@@ -1508,6 +1729,9 @@ func (c02) Decode(raw json.RawMessage) (interface{}, error) {
 
 func (c02) Key(inp interface{}) (string, bool) {
 	in := inp.(c02In)
+	if in.Mode == "deepfwd" {
+		return fmt.Sprintf("deepfwd:%s:%d", in.Kind, in.Depth), true
+	}
 	if in.Mode == "malformed" {
 		return fmt.Sprintf("mal:%s:%d:%d:%d:%d", in.Op, in.Cut, in.Pos%4096, in.Byte, in.RawSeed), in.Op != "random" || in.RawLen > 10
 	}
